@@ -82,6 +82,11 @@ structure Th where
   valid : Bool := true
   fail : Nat := 0
   removed : Bool := false    -- dropped from the registry
+  -- ghost history (never read by the machine)
+  accepted : List Stmt := []  -- every record ever committed to this thread's queue, in order
+  popped : List Stmt := []    -- every event ever popped from this thread's transit buffer, in order
+  discarded : Nat := 0        -- ordinary log statements refused by a dropping queue (the call returned false)
+  blockedCalls : Nat := 0     -- ordinary log calls that had to wait on a blocking queue
 
 instance : Inhabited Th := ⟨{ actor := 0, q := init 1 0 }⟩
 
@@ -142,7 +147,9 @@ structure BSt where
   out : List Ev := []                 -- events of the current operation (newest first)
   backendGone : Bool := false
   siteCnt : List (Nat × Nat) := []    -- hook-site visit counters of the current poll
-  inject : List (Nat × Nat × List (List String)) := []   -- (site, k, operations) to run at the k-th visit of a site
+  -- ghost history (never read by the machine)
+  log : List Ev := []                 -- every event ever emitted, newest first
+  reported : Nat := 0                 -- sum of the counts reported through "dropped"/"blocked" notifications
 
 /-! ### small helpers -/
 
@@ -160,7 +167,7 @@ def BSt.setSink (s : BSt) (sid : Nat) (f : Sink → Sink) : BSt :=
   { s with sinks := s.sinks.map (fun x => if x.sid = sid then f x else x) }
 def BSt.setActor (s : BSt) (a : Nat) (f : Actor → Actor) : BSt :=
   { s with actors := s.actors.map (fun x => if x.id = a ∧ x.alive then f x else x) }
-def BSt.emit (s : BSt) (e : Ev) : BSt := { s with out := e :: s.out }
+def BSt.emit (s : BSt) (e : Ev) : BSt := { s with out := e :: s.out, log := e :: s.log }
 
 def digits (n : Nat) : Nat := (toString n).length
 
